@@ -116,6 +116,23 @@ CLAIMED = {
              "generated by the harness.",
         technique="TLA+ grammar (parser + renderer) round-trip model-checked; TLC-generated token sequences with the "
                   "specified verdict replayed into the Go parser"),
+    "C11": dict(
+        category="model_checking",
+        text="In spec/ValueLaws.tla a Cedar set is a TLA+ set and a record a function, so the algebraic laws hold by "
+             "construction and the specification states what must be observed (SetObs / RecObs); immutability is a state "
+             "machine over construct / mutate input / take accessor output / mutate output / observe with the action property "
+             "Immutable. TLC enumerates every sequence of <= 2 (thorough 3) values of a universe built to collide in the "
+             "implementation's hash (true / 1 / decimal 0.0001 / 1ms / datetime 1, neighbouring longs, sets with equal additive "
+             "hashes, equal members in different insertion orders, nested sets and records), paired with permutations, "
+             "duplications, prefixes and replacements, and every interleaving of the immutability history; the harness builds "
+             "real Set / Record / EntityUIDSet values and compares length, membership of every universe value, equality in "
+             "both directions and through the evaluator and through membership in a set of sets, containsAll / containsAny, "
+             "text and JSON forms.",
+        design_ref="DESIGN.md 4 C11",
+        note=TRUSTED + "True 64-bit FNV collisions between strings are not constructed; the collision universe exploits the "
+             "numeric hashes and the additive set hash. Exhaustive for the stated sequence lengths.",
+        technique="TLA+ set/record model with an immutability state machine; exhaustive TLC-generated sequences and "
+                  "interleavings replayed on real values"),
     "C14": dict(
         category="model_checking",
         text="spec/Determinism.tla: observations form a history that must be a function of the input (Observe is enabled for a "
